@@ -1,4 +1,5 @@
 import OvniModel.Props.C04
+import OvniModel.Lemmas.EmuCoreRec
 
 /-!
 # C05 — CPU occupancy: one running thread per physical CPU; CPU rows mirror threads
@@ -17,6 +18,8 @@ of `stepEv`) accepts the history.
 * `vcpu_may_oversub`: an accepted history with two running threads on the virtual CPU.
 * `cpu_view`: the nrun / tid / pid channels of every CPU are clean and show the number of
   running threads bound to it and the TID / PID of that thread when it is unique.
+* `cpu_records`: whenever one of these channels is modified in an accepted step, the step emits
+  the record of type 3 / 2 / 1 carrying that value on the CPU's row of cpu.prv.
 * `remote_same_cpu_rejected`: the model (like the implementation) rejects a remote
   affinity change whose target is the thread's current CPU; the property does not speak
   about it, so `affinity_remote_accept_iff` carries the hypothesis "target ≠ current".
@@ -231,6 +234,63 @@ theorem cpu_view_step {e e' : Emu} (h : WF e) (hen : e.enabled.contains 79 = tru
   obtain ⟨_, _, _, a, b, c'⟩ := cpu_view th mh h hen hh hrun hc
   exact ⟨a, b, c', no_phys_oversub th mh h hen hh hrun hc⟩
 end
+
+/-! ## The Paraver records of a step -/
+
+section
+variable (th mh : Emu → Nat → Nat → Nat → List Nat → Except Err Emu)
+
+/-- **CPU records of a step.**  In an accepted `stepEv` of a thread or affinity event, whenever the
+    nrun / tid / pid channel of CPU `g` was modified, the step emits on row `g + 1` of cpu.prv a
+    record of type `prvCpuNrun` / `prvCpuTid` / `prvCpuPid` whose value is the number of running
+    threads bound to the CPU after the step / the TID / PID of that thread when it is unique
+    (0 = nothing otherwise). -/
+theorem cpu_records {e e1 : Emu} (h : WF e) (hen : e.enabled.contains 79 = true) {ev : OEv}
+    (hk : IsThreadEv ev ∨ IsAffinityEv ev) {rs : List PrvRec}
+    (hm : modelEvent e ev.1 79 ev.2.1 ev.2.2.1 ev.2.2.2 th mh = .ok e1) (hrec : records e e1 = .ok rs)
+    {g : Nat} {c1 : Cpu} (hc : e1.cpus[g]? = some c1) :
+    (c1.chNrun.dirty = true →
+      (⟨1, g + 1, prvCpuNrun, (runningOn e1.flushAll.threads g).length⟩ : PrvRec) ∈ rs) ∧
+    (c1.chTid.dirty = true →
+      ∃ v, prvValue 0 (uniqueOr (runningOn e1.flushAll.threads g) (·.tid)) = .ok v ∧
+        (⟨1, g + 1, prvCpuTid, v⟩ : PrvRec) ∈ rs) ∧
+    (c1.chPid.dirty = true →
+      ∃ v, prvValue 0 (uniqueOr (runningOn e1.flushAll.threads g) (·.pid)) = .ok v ∧
+        (⟨1, g + 1, prvCpuPid, v⟩ : PrvRec) ∈ rs) := by
+  have hs : stepEv e ev.1 79 ev.2.1 ev.2.2.1 ev.2.2.2 th mh = .ok (e1.flushAll, rs) :=
+    (stepEv_ok_iff th mh e ev _ rs).mpr ⟨e1, hm, hrec, rfl⟩
+  have hrun : emuRun th mh e [ev] = .ok e1.flushAll := by
+    unfold emuRun; rw [stepEv_emuStep th mh hs]; rfl
+  have hh : Hist [ev] := by intro ev' h'; rw [List.mem_singleton.mp h']; exact hk
+  have hcf : e1.flushAll.cpus[g]? = some c1.flush := by
+    rw [Emu.flushAll_eq]
+    show (e1.cpus.map Cpu.flush)[g]? = _
+    rw [List.getElem?_map, hc]; rfl
+  obtain ⟨hgi, _, _⟩ := cpu_membership_inv th mh h hen hh hrun hcf
+  obtain ⟨_, _, _, vn, vt, vp⟩ := cpu_view th mh h hen hh hrun hcf
+  have hg1 : c1.gindex = g := hgi
+  obtain ⟨⟨r1, hr1, hs1⟩, ⟨r2, hr2, hs2⟩, ⟨r3, hr3, hs3⟩⟩ :=
+    records_cpu hrec (List.mem_iff_getElem?.mpr ⟨g, hc⟩)
+  rw [hg1] at hr1 hr2 hr3
+  refine ⟨fun hd => ?_, fun hd => ?_, fun hd => ?_⟩
+  · obtain ⟨v, hv, rfl⟩ := emitRaw_dirty_ok hd hr3
+    have : (c1.flush).chNrun.cur = c1.chNrun.cur := Chan.flush_cur _
+    rw [this, hv] at vn
+    have hv' : v = ((runningOn e1.flushAll.threads g).length : Int) := by injection vn
+    rw [← hv']
+    exact hs3 _ (List.mem_singleton.mpr rfl)
+  · obtain ⟨v, hv, rfl⟩ := emitRaw_dirty_ok hd hr2
+    have : (c1.flush).chTid.cur = c1.chTid.cur := Chan.flush_cur _
+    rw [this] at vt
+    rw [vt] at hv
+    exact ⟨v, hv, hs2 _ (List.mem_singleton.mpr rfl)⟩
+  · obtain ⟨v, hv, rfl⟩ := emitRaw_dirty_ok hd hr1
+    have : (c1.flush).chPid.cur = c1.chPid.cur := Chan.flush_cur _
+    rw [this] at vp
+    rw [vp] at hv
+    exact ⟨v, hv, hs1 _ (List.mem_singleton.mpr rfl)⟩
+end
+
 
 /-! ## Witnesses -/
 
